@@ -704,22 +704,8 @@ def unit_operand_class(prog, detail):
     return None
 
 
-KNOWN_CLASS_CTOR = "bvm-constructor-pattern-on-number"
-
-
-def ctor_pattern_class(prog, detail):
-    """KNOWN_CLASS_CTOR when the first failing check is a MoveRange of registers onto themselves (how bytecodegen binds the
-    payload of a constructor pattern in place) right behind the JmpTable dispatch of a match, reading registers nothing has
-    written: the scrutinee has no payload words because it is a NUMBER - the type checker accepted a constructor pattern
-    on it (C03/T8, match-patterns-not-checked-against-scrutinee:  match (now, 2.0) { (B((a, b, c)), 1) => a, _ => 5.0 })."""
-    site = rejection_site(prog, detail)
-    if not site or not site[2] or site[2][0] != "MoveRange" or site[2][1] != site[2][2]:
-        return None
-    fi, pc, ins = site
-    code = prog["funs"][fi]["code"]
-    if not any(c[0] == "JmpTable" for c in code[max(0, pc - 4):pc]):
-        return None
-    return KNOWN_CLASS_CTOR
+# (the class "bvm-constructor-pattern-on-number" of C03/T8 is gone: the type checker rejects a constructor pattern on a number
+# since the repair of T8; the former witness is corpus/C03/bvm/rejected_t8_constructor_pattern_on_number.mmm, which must not compile)
 
 
 def rejection_class(prog, detail):
@@ -880,7 +866,7 @@ def run_part(ck, quick=True):
            "inside_model_shipped": 0, "outside_model": 0,
            "outside_model_by": {}, "accepted_closure_programs": 0, "accepted_dynamic_stop": {},
            "sched_agrees_until_task_due": 0, "not_compared_by": {}, "array_programs": 0, "accepted_array_programs": 0,
-           "sched_programs": 0, "accepted_sched_programs": 0, "rejected_known_class_ctor_pattern": 0}
+           "sched_programs": 0, "accepted_sched_programs": 0, "ill_typed_witnesses_rejected": 0}
     cov["programs_by_kind"] = {}
     for rq in reqs:
         kd = rq["kind"].split(":")[0]
@@ -896,6 +882,16 @@ def run_part(ck, quick=True):
                 continue
             r3["main"] = {"panic": "the harness process died while running this program: %s" % (None if r is None else r.get("crash"))}
             r = res[i] = r3
+        if rq["kind"].startswith("corpus:rejected_"):
+            # a repaired defect of the TYPE CHECKER (rejected_t8: a constructor pattern on a number was accepted and the bytecode
+            # bound the payload from registers nothing had written): the program must be rejected with a diagnostic
+            if "prog" in r or not r.get("compile"):
+                viol.append(("bytecode VM: a repaired defect is back (%s): the compiler %s an ill-typed program that must be rejected with a diagnostic"
+                             % (rq["kind"][7:], "emits bytecode for" if "prog" in r else "does not give a diagnostic for (%s)" % json.dumps(r)[:200]),
+                             {"source": rq["src"], "kind": rq["kind"]}))
+            else:
+                cov["ill_typed_witnesses_rejected"] += 1
+            continue
         if "prog" not in r:
             cov["not_compiled"] += 1
             continue
@@ -1069,15 +1065,7 @@ def run_part(ck, quick=True):
             else:
                 cov["without_fuel_bound"] += 1
             continue
-        cls = rejection_class(prog, a.get("detail", "")) or unit_operand_class(prog, a.get("detail", "")) \
-            or ctor_pattern_class(prog, a.get("detail", ""))
-        if cls == KNOWN_CLASS_CTOR and "T8" in known:
-            cov["rejected_known_class_ctor_pattern"] += 1
-            if rq["kind"].startswith("corpus:finding"):
-                cov["witnesses_reproduced"] += 1
-            ck.known(known["T8"], "bytecode verifier: %s binds the payload of a constructor pattern on a number (registers never "
-                     "written): %s" % (rq["kind"], rq["src"].replace("\n", " ")[:120]))
-            continue
+        cls = rejection_class(prog, a.get("detail", "")) or unit_operand_class(prog, a.get("detail", ""))
         if cls == KNOWN_CLASS_UNIT:
             cov["rejected_known_class_unit_operand"] += 1
             if rq["kind"].startswith("corpus:finding"):
